@@ -146,8 +146,8 @@ def directiveRanges : Directive → List Rng
   | .defaultCommodity _ _ r => [r]
 
 /-- Every position range the parser copies from token positions into the tree.  (Tag ranges
-    are not among them: parseTags computes them by adding offsets inside the comment text to
-    the comment's column, see `tag_byte_offsets_counterexample`.) -/
+    are not among them: parseTags computes them by adding the rune count of the comment text
+    before the tag to the comment's column, see `pinned_tag_byte_offsets_counterexample`.) -/
 def nodeRanges (j : Journal) : List Rng :=
   j.transactions.flatMap txRanges ++ j.directives.flatMap directiveRanges ++ j.includes.map (·.range)
 
